@@ -685,6 +685,12 @@ func stlGenWriterModel(r *fw.Rand) (stlModel, *astisub.Subtitles, string) {
 		}
 		cd, _ := time.Parse("060102", g.CD)
 		rd, _ := time.Parse("060102", g.RD)
+		if r.P(1, 3) {
+			// the same calendar days expressed in other time zones, close to midnight: the date written is the date the value shows
+			z1, z2 := time.FixedZone("east", 11*3600), time.FixedZone("west", -9*3600)
+			cd = time.Date(cd.Year(), cd.Month(), cd.Day(), 0, 30, 0, 0, z1)
+			rd = time.Date(rd.Year(), rd.Month(), rd.Day(), 23, 45, 0, 0, z2)
+		}
 		md.STLCreationDate, md.STLRevisionDate = &cd, &rd
 		s.Metadata = md
 	case 2:
@@ -701,6 +707,9 @@ func stlGenWriterModel(r *fw.Rand) (stlModel, *astisub.Subtitles, string) {
 	}
 	m.G = g
 	n := r.Range(1, 5)
+	if r.P(1, 60) {
+		n = r.Range(256, 300) // more TTI blocks than a byte can count
+	}
 	tcp := stlTCPns(g)
 	for k := 0; k < n; k++ {
 		// frame-aligned instants (C16 covers truncation), relative to the programme start
@@ -822,10 +831,16 @@ func stlDecodeFile(b []byte) (meta string, cues string, tcs [][8]byte, err error
 	tcp := stlTCPns(g)
 	var cb strings.Builder
 	k := 0
+	prevSN := -1
 	for off := 1024; off < len(b); off += 128 {
 		blk := b[off : off+128]
 		if blk[3] == 0xfe {
 			continue
+		}
+		if sn := int(blk[1]) | int(blk[2])<<8; k > 0 && sn != prevSN+1 {
+			return "", "", nil, fmt.Errorf("TTI block %d has subtitle number %d after %d: subtitle numbers must be consecutive", k, sn, prevSN)
+		} else {
+			prevSN = sn
 		}
 		var tci, tco [4]byte
 		copy(tci[:], blk[5:9])
